@@ -394,8 +394,12 @@ Explain(s, ch, X) ==
       \* their own and leave the marks alone - uses up the earliest mark of every record that was due
       other == (IF schedDue THEN 1 ELSE 0) + (IF fuOk THEN 1 ELSE 0) + (IF verOk THEN 1 ELSE 0)
       \* (what is owed is settled by any question for the record, whatever else may explain it)
+      \* (the matching test is spelled out per record: building MatchIds once per record would be quadratic in the table)
+      isMatch(id) == /\ T < s.tab[id].exp
+                     /\ \/ (X[2] \in {"PTR", "SRV", "TXT"} /\ id[1] = X[2] /\ id[2] = X[1])
+                        \/ (X[2] = "ADDR" /\ IsAddrTy(id[1]) /\ id[2] = X[1])
       tab2 == [id \in Dom(s.tab) |->
-                 IF id \in MatchIds(s.tab, X)
+                 IF isMatch(id)
                  THEN [s.tab[id] EXCEPT !.umarks = IF id \in refIds /\ Mult(X) > other THEN @ \cup FirstK(DueMarks(s.tab[id], T), Mult(X) - other) ELSE @,
                                         !.marks = IF OwedMarks(s.tab[id], T) # {} THEN @ \cup FirstK(OwedMarks(s.tab[id], T), Mult(X)) ELSE @]
                  ELSE s.tab[id]]
@@ -488,7 +492,9 @@ DueTimes(t, ch, sc, fu2, ver) ==
   \cup {ch[x].deadline : x \in {y \in Dom(ch) : ch[y].kind = "host" /\ ch[y].bound /\ ch[y].st = "started" /\ ch[y].deadline >= 0}}
   \cup {v.at + 1000 : v \in {w \in ver : w.hosts # {}}}
   \* a follow-up series that is certainly under way (one question can be nothing else) and certainly not over
-  \cup {fu2[k].lastAny + 500 : k \in {x \in Dom(fu2) : fu2[x].n >= 1 /\ fu2[x].m < 3 /\ fu2[x].tot < 3}}
+  \* (for an instance that is reported found right now: a ServiceRemoved ends its series)
+  \cup {fu2[k].lastAny + 500 : k \in {x \in Dom(fu2) : /\ fu2[x].n >= 1 /\ fu2[x].m < 3 /\ fu2[x].tot < 3
+                                                        /\ \E y \in Dom(ch) : ch[y].bound /\ x \in ch[y].found}}
 WakeCover(t, ch, sc, fu2, ver) ==
   LET due == {d \in DueTimes(t, ch, sc, fu2, ver) : d > T} IN
   IF due = {} THEN {}
@@ -632,7 +638,8 @@ AskOwed(lk, fu2) ==
 (* C19.loop-one    one chain of re-runs per search and per unresolved instance: browsing again replaces, follow-ups do *)
 (*                 not multiply                                                                                         *)
 (* C13.loop-stopped  no re-run is left of a search that is over                                                         *)
-LoopChecks(ch) ==
+(* C19.loop-sched   the re-run queued for an open search is due exactly at the next slot of its doubling schedule      *)
+LoopChecks(ch, sc) ==
   IF ~("loop" \in DOMAIN Ev) \/ ~Ev.loop \/ ~Ev.alive THEN {}
   ELSE
     LET tm == Ev.tm   rr == Range(Ev.rr)
@@ -647,6 +654,17 @@ LoopChecks(ch) ==
                      <<IF k = "Resolve" THEN "more than one chain of follow-up queries queued for one instance"
                        ELSE "more than one chain of re-runs queued for one search", k, x, Cardinality({r \in of(k) : r.keyk = x})>>)
                    : <<k, x>> \in UNION {{<<k2, y>> : y \in keysOf(k2)} : k2 \in {"Browse", "ResolveHostname", "Resolve"}}}
+       \* C04.loop-tries: a follow-up is at most the third try and at most half a second away
+       \cup UNION {V("C04.loop-tries", r.n >= 1 /\ r.n <= 3 /\ r.t <= T + 500,
+                     <<"a queued follow-up query is beyond the third try or more than half a second away", r.keyk, r.n, r.t, T>>) : r \in of("Resolve")}
+       \cup (IF Ev.pend # 0 THEN {}
+             ELSE UNION {V("C19.loop-sched", \E r \in rr : /\ r.t = sc[k].next
+                                                          /\ r.n * 1000 = sc[k].gap       \* the delay it will go on with: doubled, capped
+                                                          /\ \/ (r.k = "Browse" /\ "b:" \o r.keyk = k)
+                                                             \/ (r.k = "ResolveHostname" /\ "h:" \o r.keyk = k),
+                           <<"the re-run queued for an open search is not due at the next slot of its schedule (1, 2, 4 .. s, capped at one hour)",
+                             k, sc[k].next, {r.t : r \in {q \in rr : "b:" \o q.keyk = k \/ "h:" \o q.keyk = k}}, T>>)
+                         : k \in {x \in Dom(sc) : sc[x].next > T /\ (sc[x].until < 0 \/ sc[x].next < sc[x].until)}})
        \cup (IF Ev.pend # 0 THEN {}
              ELSE UNION {V("C13.loop-stopped", x \in boundKeys("browse"), <<"a query re-run is still queued for a type that is no longer browsed", x>>) : x \in keysOf("Browse")}
                   \cup UNION {V("C13.loop-stopped", x \in boundKeys("host"), <<"a query re-run is still queued for a host name that is no longer resolved", x>>) : x \in keysOf("ResolveHostname")})
@@ -683,7 +701,7 @@ Iter ==
                                                        \cup AskOwed(LackStep(lack, s3.tab, s2.chan, s3.fu), s3.fu)
                                                        \cup HostMarksOwed(s1.tab, s3.tab, s2.chan)
                                                        \cup WakeCover(s3.tab, s2.chan, AdvanceSched(s1.sched, s3.used), s3.fu, {v \in s1.verifs : T < v.at + 1000})
-                                                       \cup LoopChecks(s2.chan)
+                                                       \cup LoopChecks(s2.chan, AdvanceSched(s1.sched, s3.used))
                           ELSE {})
                     \cup KnownAnswerChecks(s1.tab) \cup Everywhere(s3.used) \cup MetricsChecks(s1.tab, s2.chan)
                     \cup QuestionLabels(s1.tab) \cup CacheOnlyQuiet(s2.chan)
@@ -693,7 +711,8 @@ Iter ==
                        \cup (IF \E i \in Qpk : Len(Sent[i].m.an) > 0 THEN {"C10.known-answer"} ELSE {})
                        \cup (IF \E j \in 1..Len(Ev.replies) : Ev.replies[j].k = "metrics" THEN {"C20.metrics"} ELSE {})
                        \cup (IF "loop" \in DOMAIN Ev /\ Ev.loop /\ Ev.ntm > 0 THEN {"C12.loop-wake"} ELSE {})
-                       \cup (IF "loop" \in DOMAIN Ev /\ Ev.loop /\ Len(Ev.rr) > 0 THEN {"C12.loop-cover", "C19.loop-one", "C13.loop-stopped"} ELSE {})
+                       \cup (IF "loop" \in DOMAIN Ev /\ Ev.loop /\ Len(Ev.rr) > 0 THEN {"C12.loop-cover", "C19.loop-one", "C13.loop-stopped", "C19.loop-sched"} ELSE {})
+                       \cup (IF "loop" \in DOMAIN Ev /\ Ev.loop /\ \E j \in 1..Len(Ev.rr) : Ev.rr[j].k = "Resolve" THEN {"C04.loop-tries"} ELSE {})
                        \cup (IF (\E j \in 1..Len(Ev.replies) : Ev.replies[j].k = "metrics") /\ Len(arrs) = 0 /\ ~\E x \in Dom(s2.chan) : s2.chan[x].bound
                              THEN {"C20.empty"} ELSE {})
   /\ inbox' = <<>> /\ cmds' = <<>>
